@@ -900,6 +900,96 @@ type kase struct {
 	Ctx     string `json:"ctx"`
 	Kind    string `json:"kind"`
 	Path    string `json:"path,omitempty"` // "" = direct Namespace.IsSQLAllowed; "query" / "multi" = COM_QUERY through a real session
+	// Entry is the configured black_sql text when it is not Base itself but another spelling of
+	// the same statement (EntryKind names the spelling); "" = the entry is Base.
+	Entry     string `json:"entry,omitempty"`
+	EntryKind string `json:"entry_kind,omitempty"`
+}
+
+func (k kase) entryText() string {
+	if k.Entry != "" {
+		return k.Entry
+	}
+	return k.Base
+}
+
+func (k kase) entryKind() string {
+	if k.EntryKind != "" {
+		return k.EntryKind
+	}
+	return "default"
+}
+
+type spelling struct{ name, text string }
+
+// entrySpellings: other members of the base's equivalence class used as the CONFIGURED entry.
+func entrySpellings(toks []tok, base string) []spelling {
+	var out []spelling
+	strs, others := map[int]string{}, map[int]string{}
+	firstNum := -1
+	for i, t := range toks {
+		if t.K != LIT || t.IntOnly {
+			continue
+		}
+		if strings.HasPrefix(t.T, "'") {
+			strs[i] = "'a;b'"
+			others[i] = "'zz'"
+		} else {
+			if firstNum < 0 {
+				firstNum = i
+			}
+			others[i] = "77"
+		}
+	}
+	if len(strs) > 0 {
+		out = append(out, spelling{"strings_semicolon", render(applyLits(toks, strs), nil, nil)})
+	}
+	if firstNum >= 0 {
+		out = append(out, spelling{"num_to_string_semicolon", render(applyLits(toks, map[int]string{firstNum: "'p;q'"}), nil, nil)})
+	}
+	if len(others) > 0 {
+		out = append(out, spelling{"other_literals", render(applyLits(toks, others), nil, nil)})
+	}
+	out = append(out, spelling{"leading_comment_semicolon", "/* t; u */ " + base})
+	out = append(out, spelling{"comment_semicolon_after_first_keyword", render(toks, map[int]string{1: " /* t; u */ "}, nil)})
+	out = append(out, spelling{"trailing_semicolon", base + ";"})
+	up := map[int]int{}
+	for i, t := range toks {
+		if t.K == KW || t.K == FN {
+			up[i] = 1
+		}
+	}
+	out = append(out, spelling{"upper_keywords", render(toks, nil, up)})
+	return out
+}
+
+// entryTargets picks, from the variants that are rejected under the default entry, a handful
+// per knob: the first of every knob, and for literals the first of four literal classes.
+func entryTargets(passed []variant) []variant {
+	var out []variant
+	seen := map[string]bool{}
+	for _, v := range passed {
+		key := v.Knob
+		if v.Knob == "literal" {
+			switch v.What {
+			case "string", "negative", "string_with_punct", "decimal_or_exp":
+				key = v.Knob + "|" + v.What
+			default:
+				continue
+			}
+		}
+		if v.Knob == "comment" && v.Site != "leading" {
+			continue
+		}
+		if v.Knob == "kwcase" && v.Site != "all" {
+			continue
+		}
+		if !seen[key] {
+			seen[key] = true
+			out = append(out, v)
+		}
+	}
+	return out
 }
 
 func mustParse(p *parser.Parser, sql, what string) {
@@ -928,7 +1018,7 @@ func judge(r *ev.Run, g *rig, k kase) bool {
 	}
 	if os.Getenv("C36_DUMP") != "" {
 		dumpMu.Lock()
-		key := k.Class + " | " + k.Knob + " | " + k.Site + " | " + k.What + " | next=" + k.Next + " | ctx=" + k.Ctx
+		key := "entry=" + k.entryKind() + " | " + k.Class + " | " + k.Knob + " | " + k.Site + " | " + k.What + " | next=" + k.Next + " | ctx=" + k.Ctx
 		dump[key]++
 		if _, ok := dumpEx[key]; !ok {
 			dumpEx[key] = fmt.Sprintf("%q -> %q   [%s] vs [%s]", k.Base, k.Variant, mysql.GetFingerprint(k.Base), mysql.GetFingerprint(k.Variant))
@@ -936,9 +1026,9 @@ func judge(r *ev.Run, g *rig, k kase) bool {
 		dumpMu.Unlock()
 	}
 	r.Violation(ev.Witness{
-		Summary: fmt.Sprintf("blacklisted %q: %s variant (%s %s %s) %q %s; fingerprints %q vs %q",
-			k.Base, k.Class, k.Knob, k.Site, k.What, k.Variant, verb, mysql.GetFingerprint(k.Base), mysql.GetFingerprint(k.Variant)),
-		Features: map[string]string{"class": k.Class, "knob": k.Knob, "site": k.Site, "what": k.What, "next": k.Next, "ctx": k.Ctx, "stmt": k.Kind, "path": "direct"},
+		Summary: fmt.Sprintf("blacklist entry (%s) %q: %s variant (%s %s %s) %q %s; fingerprints %q vs %q",
+			k.entryKind(), k.entryText(), k.Class, k.Knob, k.Site, k.What, k.Variant, verb, mysql.GetFingerprint(k.entryText()), mysql.GetFingerprint(k.Variant)),
+		Features: map[string]string{"class": k.Class, "knob": k.Knob, "site": k.Site, "what": k.What, "next": k.Next, "ctx": k.Ctx, "stmt": k.Kind, "path": "direct", "entry": k.entryKind()},
 		Case:     k,
 	})
 	return false
@@ -949,11 +1039,7 @@ func main() {
 	r := ev.Start("C36", "exploration")
 	var k kase
 	if r.ReplayCase(&k) {
-		g := newRig([]string{k.Base})
-		if g.allowed(k.Base) {
-			r.Violation(ev.Witness{Summary: "blacklisted statement itself is allowed: " + k.Base,
-				Features: map[string]string{"class": "identity", "knob": "none", "site": "", "what": "", "next": "", "stmt": k.Kind, "path": "direct"}, Case: k})
-		}
+		g := newRig([]string{k.entryText()})
 		if k.Path != "" {
 			replayQuery(r, g, k)
 		} else {
@@ -987,7 +1073,7 @@ func main() {
 		n++
 		if g.allowed(base) {
 			r.Violation(ev.Witness{Summary: "blacklisted statement itself is allowed: " + base,
-				Features: map[string]string{"class": "identity", "knob": "none", "site": "", "what": "", "next": "", "stmt": s.Kind, "path": "direct"},
+				Features: map[string]string{"class": "identity", "knob": "none", "site": "", "what": "", "next": "", "stmt": s.Kind, "path": "direct", "entry": "default"},
 				Case:     kase{Base: base, Variant: base, Class: "equivalent", Kind: s.Kind}})
 		}
 		var passed []variant
@@ -1057,7 +1143,47 @@ func main() {
 		// second observation: the same decisions as the client experiences them (COM_QUERY
 		// through Session.Run -> handleQuery -> doQuery / doMultiStmts -> checkSQLAllowed)
 		other := baseSQL[(i+len(baseSQL)/2)%len(baseSQL)]
-		n += queryPath(r, g, s, toks, base, eqs, sts, other, specs[(i+len(baseSQL)/2)%len(baseSQL)])
+		otherSpec := specs[(i+len(baseSQL)/2)%len(baseSQL)]
+		// entry spellings: the configured entry may be ANY member of the equivalence class
+		spells := entrySpellings(toks, base)
+		entryRigs := map[string]*rig{}
+		var okStructurals []variant
+		for _, v := range sts {
+			if g.allowed(v.SQL) {
+				okStructurals = append(okStructurals, v)
+			}
+		}
+		targets := entryTargets(passed)
+		for _, sp := range spells {
+			mustParse(p, strings.TrimRight(sp.text, ";"), "entry spelling "+sp.name)
+			gE := newRig([]string{sp.text})
+			entryRigs[sp.name] = gE
+			cases := []kase{{Variant: base, Class: "equivalent", Knob: "identity"}}
+			if e := strings.TrimRight(sp.text, ";"); e != base {
+				cases = append(cases, kase{Variant: e, Class: "equivalent", Knob: "entry_text_itself"})
+			}
+			for _, v := range targets {
+				cases = append(cases, kase{Variant: v.SQL, Class: v.Class, Knob: v.Knob, Site: v.Site, What: v.What, Next: v.Next, Ctx: v.Ctx})
+			}
+			for _, v := range okStructurals {
+				cases = append(cases, kase{Variant: v.SQL, Class: v.Class, Knob: v.Knob, Site: v.Site, What: v.What})
+			}
+			a, b := s, otherSpec
+			a.InLen, a.Rows, b.InLen, b.Rows = 0, 0, 0, 0
+			if a != b {
+				cases = append(cases, kase{Variant: other, Class: "structural", Knob: "other_base", Site: otherSpec.Kind, What: otherSpec.String()})
+			}
+			for _, kk := range cases {
+				kk.Base, kk.Kind, kk.Entry, kk.EntryKind = base, s.Kind, sp.text, sp.name
+				n++
+				r.Add("entry_spelling_evaluations", 1)
+				if judge(r, gE, kk) {
+					r.Distinct("nontrivial", "e|"+sp.text+"|"+kk.Variant)
+					r.Distinct("entry_spellings", sp.name)
+				}
+			}
+		}
+		n += queryPath(r, g, s, toks, base, eqs, sts, other, otherSpec, spells, entryRigs, okStructurals)
 		r.Add("evaluations", n)
 		r.Add("bases", 1)
 		r.Distinct("fingerprints", mysql.GetFingerprint(base))
@@ -1083,7 +1209,7 @@ func main() {
 	sort.Strings(kn)
 	r.Set("comment_forms", kn)
 	r.Set("literal_alphabet", litAlphabet)
-	r.Set("rule", "every base statement of the token grammar (SELECT cols x join x 7 WHERE shapes x 5 tails; INSERT/REPLACE 4 forms x 1-2 rows; UPDATE 3 forms; DELETE) is black-listed alone; evaluated: every single-knob equivalent variant (each literal position x literal alphabet, all literals at once, IN length 1/3/5, VALUES rows 1-3, each whitespace gap x 5 whitespace strings and all gaps at once, each optional gap toggled and all at once, leading/trailing whitespace, each keyword x 3 casings and all at once, 7 comment forms at every gap, leading/trailing comments) and every structural mutant (token-level mutants and every other base). Second observation (query path): for every base a structured subset (all comment / whitespace forms before the first keyword, between the first keyword and the next token, after the last token; re-casing of the first and of all keywords; one representative of every other knob class; one structural mutant per kind; another base; multi-statement-capable session: base alone, with ';', after '# c\\n', inside two-statement packets) is sent as COM_QUERY through a real Session of a namespace that black-lists the base: equivalent => ERR 'sql in blacklist' and nothing on a backend, mutant => executed (query_path_evaluations). distinct_nontrivial = distinct (base, variant text != base) pairs on which the blacklist gave the demanded answer (rejected through a different text / allowed although similar), direct and query path counted separately.")
+	r.Set("rule", "every base statement of the token grammar (SELECT cols x join x 7 WHERE shapes x 5 tails; INSERT/REPLACE 4 forms x 1-2 rows; UPDATE 3 forms; DELETE) is black-listed alone; evaluated: every single-knob equivalent variant (each literal position x literal alphabet, all literals at once, IN length 1/3/5, VALUES rows 1-3, each whitespace gap x 5 whitespace strings and all gaps at once, each optional gap toggled and all at once, leading/trailing whitespace, each keyword x 3 casings and all at once, 7 comment forms at every gap, leading/trailing comments) and every structural mutant (token-level mutants and every other base). Second observation (query path): for every base a structured subset (all comment / whitespace forms before the first keyword, between the first keyword and the next token, after the last token; re-casing of the first and of all keywords; one representative of every other knob class; one structural mutant per kind; another base; multi-statement-capable session: base alone, with ';', after '# c\\n', inside two-statement packets) is sent as COM_QUERY through a real Session of a namespace that black-lists the base: equivalent => ERR 'sql in blacklist' and nothing on a backend, mutant => executed (query_path_evaluations). Entry spellings: besides the base itself, the blacklist is configured with other spellings of the base (string literals 'a;b'; a number replaced by 'p;q'; other literals; leading comment /* t; u */; the same comment after the first keyword; trailing ';'; upper-cased keywords) and must reject the base, the entry text and a handful of equivalents that are rejected under the default entry (first of every knob, four literal classes) and allow every structural mutant that is allowed under the default entry (entry_spelling_evaluations; four of the spellings also on the query path). distinct_nontrivial = distinct (base, variant text != base) pairs on which the blacklist gave the demanded answer (rejected through a different text / allowed although similar), direct and query path counted separately.")
 	r.Assume("identifier case is not varied; literal NULL is not used; /*! */ and /*+ */ are not comments")
 	r.Assume("query path: backends are recording fakes that accept every statement; 'executed' means a statement reached a fake backend")
 	r.Assume("every generated statement is accepted by Gaea's own SQL parser (checked at run time, engine error otherwise)")
